@@ -374,8 +374,13 @@ fn read_texture(f: &mut BinReader, emitter: &impl Emitter, with_images: bool) ->
     }
 
     if with_images {
-        let mut data = vec![0; size as usize];
-        f.read_exact(&mut data)?;
+        // `size` is untrusted: read at most that many bytes instead of allocating them up front
+        let mut data = vec![];
+        std::io::Read::read_to_end(&mut std::io::Read::take(f.inner_mut(), size as u64), &mut data)
+            .map_err(|e| emitter.emit(error!("{}: {}", f.display_filename(), e)))?;
+        if data.len() != size as usize {
+            return Err(emitter.emit(error!("{}: failed to fill whole buffer", f.display_filename())));
+        }
         Ok((thtx, Some(data.into())))
     } else {
         Ok((thtx, None))
